@@ -275,6 +275,18 @@ def run_wm(desc):
         kept = {}
         if desc.get('reuse') and o['api'] == 'lib':
             classes.append('loader-reused')
+        # a prior state that verifies as it stands (round 0 has no edits)
+        # gives the first save no reason to fail either
+        prior_ok = False
+        if state['mode'] != 'none' and not desc['rounds'][0]['edits']:
+            def fresh_verify():
+                return gem.ManifestRecursiveLoader(
+                    os.path.join(root, 'Manifest')
+                ).assert_directory_verifies('')
+            v = gem.call(fresh_verify)
+            prior_ok = v.kind == 'return' and v.value is True
+            if prior_ok:
+                classes.append('prior-state-verifies')
         for i, rnd in enumerate(desc['rounds']):
             mutate.apply_ops(root, rnd['edits'])
             if rnd['wdelta'] is None:
@@ -308,7 +320,8 @@ def run_wm(desc):
                     root, ro, create=(state['mode'] == 'none' and i == 0))
             what = (f'round {i}: save with watermark {W}, format {F}, '
                     f'force {rnd["force"]} via {o["api"]}')
-            if oc.kind != 'return' and i > 0 and not has_dangling(root):
+            if oc.kind != 'return' and (i > 0 or prior_ok) \
+                    and not has_dangling(root):
                 # the previous round left an exactly described, verifying
                 # tree and the edits only change/add/delete regular files:
                 # this save has no reason to fail
